@@ -35,16 +35,25 @@ func cloneMsg(m *dns.Message) *dns.Message {
 
 func TestC13(t *testing.T) {
 	rec := ev.Get("C13")
-	rec.Rule("(a) messages over the record types the encoder supports (A, AAAA, NS, CNAME, PTR, OPT, HTTPS with any parameter subset), all header flag/opcode/rcode values, names of 0..127 labels up to 255 wire bytes (root included), 0..4 records per section: DecodeMessage(Bytes()) == message, and dnsmessage.Parser reads Bytes() completely and agrees. (b) packets built by dnsmessage.Builder with and without compression over A/AAAA/NS/CNAME/PTR/MX/SOA/TXT/SRV/OPT/SVCB/HTTPS/unknown types (names reused so that pointers are emitted, mandatory and unknown SvcParams): DecodeMessage equals the builder's content, ResponseCode equals dnsmessage's extended RCODE. (c) AddPadding: length multiple of 128, same questions, exactly one padding option, other content unchanged, idempotent. distinct = message hash; non-trivial = at least one resource record or a name with 3+ labels")
-	rec.Mandatory("root_question", "root_owner", "https_ge4_params", "compressed_input", "name_wire255", "opt_ext_rcode", "padding", "dir:encode", "dir:foreign")
+	rec.Rule("(a) messages over the record types the encoder supports (A, AAAA, NS, CNAME, PTR, OPT, HTTPS with any parameter subset), all header flag/opcode/rcode values, names of 0..127 labels up to 255 wire bytes (root included; question names also in absolute form with a trailing dot), 0..4 records per section: DecodeMessage(Bytes()) == message, and dnsmessage.Parser reads Bytes() completely and agrees. (b) packets built by dnsmessage.Builder with and without compression over A/AAAA/NS/CNAME/PTR/MX/SOA/TXT/SRV/OPT/SVCB/HTTPS/unknown types (names reused so that pointers are emitted, mandatory and unknown SvcParams): DecodeMessage equals the builder's content, ResponseCode equals dnsmessage's extended RCODE. (c) AddPadding: length multiple of 128, same questions, exactly one padding option, other content unchanged, idempotent. distinct = message hash; non-trivial = at least one resource record or a name with 3+ labels")
+	rec.Mandatory("question_trailing_dot", "root_question", "root_owner", "https_ge4_params", "compressed_input", "name_wire255", "opt_ext_rcode", "padding", "dir:encode", "dir:foreign")
 	rapid.Check(t, func(t *rapid.T) {
 		var cl []string
 		if rapid.Bool().Draw(t, "direction_encode") {
 			cl = append(cl, "dir:encode")
 			m := dnsfx.GenMessage(t, "m")
 			want := dnsfx.Canon(m)
+			// question names may be given in absolute form (trailing dot, "." for the
+			// root): the wire form, and hence the decoded message, is the same
+			enc := cloneMsg(m)
+			for i := range enc.Question {
+				if rapid.IntRange(0, 3).Draw(t, fmt.Sprintf("q%d_absolute", i)) == 0 {
+					enc.Question[i].Name += "."
+					cl = append(cl, "question_trailing_dot")
+				}
+			}
 			var b []byte
-			if e := guard(func() error { b = m.Bytes(); return nil }); e != nil {
+			if e := guard(func() error { b = enc.Bytes(); return nil }); e != nil {
 				ev.Violation(t, "C13", map[string]any{"message": want}, "Bytes panicked: %v", e)
 			}
 			rp := map[string]any{"message": want, "bytes": hx(b)}
@@ -111,6 +120,9 @@ func TestC13(t *testing.T) {
 			}
 			// (c) padding
 			pm := cloneMsg(got)
+			if rapid.Bool().Draw(t, "pad_as_given") {
+				pm = cloneMsg(enc)
+			}
 			if e := guard(func() error { pm.AddPadding(); return nil }); e != nil {
 				ev.Violation(t, "C13", rp, "AddPadding panicked: %v", e)
 			}
